@@ -70,7 +70,8 @@ def Shape.netSize (S : Shape K) : ℕ :=
 
 /-- a well-formed curve / surface / volume shape with `d` Cartesian coordinates: every parametric
     direction has a well-formed knot function (non-decreasing, at least degree + 1 control points,
-    non-empty last span), the net has the right number of points, each with `d` (`d + 1` when rational)
+    non-empty last span) given by a knot list of `size + degree + 1` knots, degree ≥ 1 (the driver's `shapeOk` / the
+    library's setters), the net has the right number of points, each with `d` (`d + 1` when rational)
     coordinates, and the weights of a rational shape are positive -/
 structure ShapeWF (d : ℕ) (S : Shape K) : Prop where
   pdim : S.pdim = 1 ∨ S.pdim = 2 ∨ S.pdim = 3
@@ -78,6 +79,11 @@ structure ShapeWF (d : ℕ) (S : Shape K) : Prop where
   netlen : S.net.length = S.netSize
   net : NetOk (if S.rat then d + 1 else d) S.net
   wpos : S.rat = true → ∀ pt ∈ S.net, 0 < pt.getD d 0
+  /-- `len(U) = n + p + 1` in every direction (otherwise the knot-vector setter raises "Input is not a valid knot
+      vector"; `fnOf` would pad a short list with its last knot) -/
+  kvlen : ∀ i, i < S.pdim → (S.kv i).length = S.size i + S.deg i + 1
+  /-- every degree is at least 1 (the degree setters refuse 0) -/
+  deg1 : ∀ i, i < S.pdim → 1 ≤ S.deg i
 
 /-- the parameter tuple lies in the closed domain of every direction -/
 def Shape.InDom (S : Shape K) (t : ℕ → K) : Prop :=
@@ -107,7 +113,7 @@ theorem mapPts_net_nonrat (S : Shape K) (f : List K → List K) (hr : S.rat = fa
     rational flag are untouched; weights are unchanged, hence still positive) -/
 theorem ShapeWF.mapPts {d : ℕ} {S : Shape K} (h : ShapeWF d S) (f : List K → List K)
     (hf : ∀ pt : List K, pt.length = d → (f pt).length = d) : ShapeWF d (S.mapPts f) := by
-  refine ⟨h.pdim, h.dirs, ?_, ?_, ?_⟩
+  refine ⟨h.pdim, h.dirs, ?_, ?_, ?_, h.kvlen, h.deg1⟩
   · show (S.net.map _).length = S.netSize
     rw [List.length_map]; exact h.netlen
   · show NetOk (if S.rat then d + 1 else d) (S.mapPts f).net
